@@ -1584,7 +1584,10 @@ class Declaration(Node):
         if basedef.base == "vector":
             decl.append("(*)")  # is array
         elif ntypemap.base == "string":
-            decl.append("(*)")
+            if not attrs["value"]:
+                # 'char c' by value (callback parameter) is a scalar;
+                # VALUE and an array spec may not be combined.
+                decl.append("(*)")
         elif attrs["dimension"]:
             # Any dimension is changed to assumed-size.
             decl.append("(*)")
